@@ -838,7 +838,7 @@ class Interp(object):
                 w, sg = self.ty_width(ty, fr.env)
                 return W(w, val=v, signed=sg)
             if o.get("fn"):
-                return Opaque("fndef", (ty.get("key"),))
+                return Opaque("fndef", (ty.get("key"), ty.get("path"), tuple(ty.get("args") or ())))
             if "uneval" in o:
                 u = o["uneval"]
                 if u["promoted"] is not None:
